@@ -2397,7 +2397,62 @@ func ruleSigLength(c *RC) *RuleResult {
 				continue
 			}
 			r.Sites++
-			if checked != token.NoPos && checked < firstRead.Pos() {
+			// a private helper may leave the comparison to its callers: then each of them makes it before the call
+			byCallers := false
+			if !(checked != token.NoPos && checked < firstRead.Pos()) && !ast.IsExported(fn.Decl.Name.Name) {
+				pi := -1
+				for i, q := range fn.Params {
+					if q == p {
+						pi = i
+					}
+				}
+				ncall, nok := 0, 0
+				for _, g := range c.Prog.sortedFuncs() {
+					if g.Pkg.PkgPath != fn.Pkg.PkgPath || g.Decl == nil || g.Decl.Body == nil {
+						continue
+					}
+					ginfo := g.Pkg.TypesInfo
+					ast.Inspect(g.Decl.Body, func(n ast.Node) bool {
+						call, ok := n.(*ast.CallExpr)
+						if !ok || pi < 0 || pi >= len(call.Args) {
+							return true
+						}
+						fo, _ := typeutil.Callee(ginfo, call).(*types.Func)
+						if fo == nil || c.Prog.Funcs[fo.Origin()] != fn {
+							return true
+						}
+						ncall++
+						arg, ok := ast.Unparen(call.Args[pi]).(*ast.Ident)
+						if !ok {
+							return true
+						}
+						aobj := ginfo.Uses[arg]
+						cmp := false
+						ast.Inspect(g.Decl.Body, func(m ast.Node) bool {
+							if be, ok := m.(*ast.BinaryExpr); ok && be.Pos() < call.Pos() {
+								for _, side := range []ast.Expr{be.X, be.Y} {
+									if lc, ok := ast.Unparen(side).(*ast.CallExpr); ok && len(lc.Args) == 1 {
+										if id, ok := lc.Fun.(*ast.Ident); ok && id.Name == "len" {
+											if aid, ok := ast.Unparen(lc.Args[0]).(*ast.Ident); ok && ginfo.Uses[aid] == aobj {
+												cmp = true
+											}
+										}
+									}
+								}
+							}
+							return true
+						})
+						if cmp {
+							nok++
+						}
+						return true
+					})
+				}
+				byCallers = ncall > 0 && nok == ncall
+			}
+			if byCallers {
+				r.ok(fmt.Sprintf("%s: every caller compares the length of what it hands over as %s before the call", fn.Name, p.Name()))
+			} else if checked != token.NoPos && checked < firstRead.Pos() {
 				r.ok(fmt.Sprintf("%s: %s is sliced with constant bounds after its length was compared", fn.Name, p.Name()))
 			} else {
 				r.fail(fn.Name+"/unchecked-length:"+p.Name(), c.Prog.Pos(firstRead), fmt.Sprintf("%s slices its parameter %s with constant bounds without looking at its length: a shorter slice panics or — within its capacity — is re-sliced, so that an empty slice cut from a valid signature verifies", fn.Name, p.Name()))
